@@ -270,8 +270,17 @@ let ast_mode () =
      done with End_of_file -> ());
   flush stdout
 
+let pyrw_mode () =
+  (try while true do
+       let l = input_line stdin in
+       let s = str_of_field (String.trim l) in
+       print_endline (String.concat "," (List.map (fun c -> string_of_int (int_of_n c)) (py_rewrite s)))
+     done with End_of_file -> ());
+  flush stdout
+
 let () =
   if Array.length Sys.argv > 1 && Sys.argv.(1) = "--lines" then (lines_mode (); exit 0);
+  if Array.length Sys.argv > 1 && Sys.argv.(1) = "--pyrw" then (pyrw_mode (); exit 0);
   if Array.length Sys.argv > 2 && Sys.argv.(1) = "--ast" then (ws_table := load_ranges Sys.argv.(2); ast_mode (); exit 0);
   engine_d := load_ranges Sys.argv.(1);
   (try while true do
